@@ -385,10 +385,13 @@ func runC08(p *Program, r *Result) {
 		if !p.mayBeEOFAt(rtb, c.Common().Args[1], rtb.FactsAt(c.Block()), 0) {
 			continue
 		}
-		facts := rtb.FactsAt(c.Block())
-		_, isFooter := findFact(facts, func(a Atom) bool {
-			return a.Kind == "cmp" && a.Op == "==" && a.Y.S == specConst(r, "armor.Footer")
-		})
+		// every way on which the value may be io.EOF stands behind the footer comparison: for a
+		// merged error (the drain's result returned through a helper together with other
+		// failures) each incoming way is judged under its own facts
+		footerConst := specConst(r, "armor.Footer")
+		isFooter := p.eofOnlyBehind(rtb, c.Common().Args[1], rtb.FactsAt(c.Block()), func(a Atom) bool {
+			return a.Kind == "cmp" && a.Op == "==" && a.Y.S == footerConst
+		}, 0)
 		r.Check(isFooter, rd.String(), "drainTrailing", r.pos(c), "drainTrailing (the only producer of io.EOF) runs only after a line equal to the footer", "the end-of-armor drain runs on a path where no footer line was seen")
 	}
 
